@@ -24,7 +24,8 @@ EXPLANATION = (
     "by +angle about its centre with vertices in boundary order, area() / get_radius() are that rectangle's area and "
     "circumradius, each IoU equals I / (A_l + A_r - I) identically, and the axis-aligned intersection equals "
     "(min(right edges) - max(left edges)) * (min(bottoms) - max(tops)). (R08.11) every polygon the clipper returns is "
-    "produced by its loop over the clipping edges: no path around the loop hands back an input polygon.")
+    "produced by its loop over the clipping edges: no path around the loop hands back an input polygon."
+    ' (R08.12) the tolerance constant of the box code is the public `EPS` = 1e-5.')
 NOT_DECIDED = ["exactness of the clipped area and of the IoU value (f64 geometry)", "symmetry / rigid-motion invariance "
                "as numeric statements", "agreement of the closed form with the general path",
                "soundness of the pre-filter bound as an inequality (only its wiring is decided)"]
